@@ -42,6 +42,8 @@ def plan(tier: str, seed: int) -> list[dict]:
     def add(opt, desc, cfg, mode="serial", workers=None, tag=""):
         runs.append({"id": len(runs) + 1, "opt": opt, "desc": desc, "cfg": cfg, "mode": mode, "workers": workers, "tag": tag,
                      "debug": rng.random() < 0.12, "other": gen.task_desc(rng, desc.get("encoding"))})
+        if rng.random() < 0.1:
+            desc["scribble"] = True        # the objective overwrites its argument after reading it (the library must hand it a copy)
 
     reps = 24 if tier == "thorough" else 3
     for opt in gen.OPTIMIZERS:
@@ -59,6 +61,7 @@ def plan(tier: str, seed: int) -> list[dict]:
             for _ in range(4):
                 d = gen.task_desc(rng, rng.choice(["contmulti", "cont"]), dim=rng.choice([2, 3, 4]))
                 d["offset"] = rng.choice([0.0, 250.0, -1000.0, 1e6])
+                d["scale"] = rng.choice([1.0, 1.0, 1e-20, 1e12]) if d["offset"] == 0.0 else 1.0
                 add(opt, d, gen.config_dict(rng, opt, scale=1, max_cycles=40, stop="cycles", jit=rng.random() < 0.7), tag="long")
             # many continuous variables (vectorised paths), a coordinate on a zero bound
             add(opt, gen.task_desc(rng, rng.choice(["contmulti", "cont"]), dim=rng.choice([8, 10, 12]), regime=rng.choice(["zero_lb", "zero_ub", "mixed", "unit"])),
@@ -368,6 +371,10 @@ def project(spec, desc, cfg, o, res, calls, crash) -> dict:
             for row in trend_raw:
                 for v in row:
                     rk.add(v)
+            # the utilities only READ the history: every generation must still be what was captured before they ran
+            after = [[(pid(a.position), a.cost) for a in g.agents] for g in res.evolution]
+            if after != [[(p, u) for (p, u, _f) in gl] for gl in evo]:
+                trend_raw, tpos_raw, sub_raw = None, None, None
         except Exception as ex:
             trend_raw, tpos_raw, sub_raw = None, None, None
     # extensions (spec/AlgoRel.tla): loop bookkeeping and algorithm-private observables
@@ -413,8 +420,11 @@ def project(spec, desc, cfg, o, res, calls, crash) -> dict:
     stab = [1 if p in seen else 0 for p in range(1, n + 1)]
     rates = list(res.rates) if res is not None else []
     fe, es = cfg.fitness_error, cfg.early_stopping
+    # optional early-stopping fields: None means the documented default (patience 1, min_delta 1e-4)
+    es_md = (es.min_delta if es.min_delta is not None else 1e-4) if es is not None else None
+    es_pat = (es.patience if es.patience is not None else 1) if es is not None else 1
     lefe = [fe is not None and r <= fe for r in rates]
-    dec = [False] + [es is not None and (rates[j] - rates[j - 1] < 0 and abs(rates[j] - rates[j - 1]) < es.min_delta)
+    dec = [False] + [es is not None and (rates[j] - rates[j - 1] < 0 and abs(rates[j] - rates[j - 1]) < es_md)
                      for j in range(1, len(rates))]
     rate_ok = True
     if res is not None:
@@ -429,7 +439,7 @@ def project(spec, desc, cfg, o, res, calls, crash) -> dict:
         "sizecls": "variable" if opt in gen.VARIABLE_SIZE else "exact",
         "elitist": opt not in gen.NON_ELITIST,
         "kindp": [1 if k["k"] == "perm" else 0 for k in kinds],
-        "mc": int(cfg.max_cycles), "hasFe": fe is not None, "hasEs": es is not None, "pat": int(es.patience) if es is not None else 1,
+        "mc": int(cfg.max_cycles), "hasFe": fe is not None, "hasEs": es is not None, "pat": int(es_pat),
         "lefe": lefe, "dec": dec, "nrates": len(rates), "rate_ok": bool(rate_ok),
         "steps": int(getattr(o, "_vsteps", 0)), "gens": len(evo),
         "ptab": ptab, "ftab": ftab, "dtab": dtab, "stab": stab,
